@@ -211,6 +211,8 @@ class Driver:
             "UBSAN_OPTIONS": "print_stacktrace=1:abort_on_error=1:log_path=%s/ubsan" % self.asan_dir,
             "TSAN_OPTIONS": "log_path=%s/tsan:exitcode=66:report_signal_unsafe=0" % self.asan_dir,
             "TZ": "UTC",
+            # freed chunks parked in the per-thread cache would count as "in use" in mallinfo2()
+            "GLIBC_TUNABLES": "glibc.malloc.tcache_count=0",
         }
         if extra_env:
             env.update(extra_env)
